@@ -1,5 +1,6 @@
 import DashLive.Lemmas.Avail
 import DashLive.Props.C02
+import DashLive.Gen.Options
 /-!
 # C01 – every segment a live manifest advertises is retrievable
 
@@ -236,6 +237,43 @@ theorem C01_number_partial (conv : Nat → Int) (durs : List Nat) (ts sd sn R : 
   refine ⟨(getSegmentIndex durs R (k * sd)).1, (getSegmentIndex durs R (k * sd)).2.2, ?_⟩
   unfold liveIndex
   simp only [htc, hnn, Int.toNat_natCast, if_false, hold, hnew, h2', hgate, or_self]
+
+/-! ### the registered default leeway (table regenerated from the option registry every run) -/
+
+/-- default of the `leeway` option as the registry has it today (`Gen/Options.lean`) -/
+def defaultLeewayText : Option String :=
+  (DashLive.Gen.Options.table.find? (fun r => r.cgi == "leeway")).map (·.dflt)
+
+/-- decimal text → seconds, for the values the theorem below is about -/
+def defaultLeewaySeconds : Option Nat :=
+  defaultLeewayText.bind fun t => if t == "16" then some 16 else none
+
+/-- obligation on the generated table: the default leeway is 16 s -/
+theorem default_leeway_is_16 : defaultLeewaySeconds = some 16 := by decide +kernel
+
+/-- **with the default options** every track whose `segment_duration` is below 8 s (timescale
+up to 2 MHz) satisfies the `$Number$` leeway hypothesis, and every track whose longest
+segment is below 30 s the `$Time$` one – so `C01_number_partial` / `C01_time_partial`
+apply to them without any option being given.  Tracks with longer segments (the 10 s text
+track of the upstream fixture) fall under finding D9. -/
+theorem default_leeway_suffices (ts sd E tsbd L : Nat) (durs : List Nat)
+    (hL : defaultLeewaySeconds = some L) (hts : 0 < ts) (hts2 : ts ≤ 2000000) :
+    (sd < 8 * ts → LeewayNumber ts sd ⟨E, tsbd, L * 1000000⟩) ∧
+    (maxDur durs < 30 * ts → LeewayTime durs ts ⟨E, tsbd, L * 1000000⟩) := by
+  rw [default_leeway_is_16] at hL
+  have : L = 16 := by injection hL with h; exact h.symm
+  subst this
+  constructor
+  · intro h
+    unfold LeewayNumber
+    simp only
+    have h1 : sd + 1 ≤ 8 * ts := h
+    nlinarith
+  · intro h
+    unfold LeewayTime
+    simp only
+    have h1 : maxDur durs / 2 < 15 * ts := by omega
+    nlinarith
 
 /-! ### the initialization segment never consults the window -/
 
